@@ -237,7 +237,7 @@ impl Script {
         context
             .global_declaration_instantiation(&codeblock)
             .inspect_err(|_| {
-                context.vm.pop_frame();
+                context.vm.pop_frame_and_truncate();
             })?;
 
         Ok(())
